@@ -473,18 +473,23 @@ class StmtMixin(object):
         ordn = fr.loop_ord.get(id(s))
         lname = '%s/loop#%s' % (fr.func.qualname, ordn)
         is_for = rng is not None
+        ivar = None
+        ivar_attr = None
         if is_for:
             lo, hi = rng
-            if s.target.k != 'Name':
+            if s.target.k == 'Name':
+                ivar = s.target.id
+            elif s.target.k == 'Attr':
+                ivar_attr = (self.eval_quiet(s.target.obj), s.target.attr)
+            else:
                 raise Unsupported('loop target')
-            ivar = s.target.id
-            self.assign_name(ivar, lo, s.line)
+            self.assign_target(s.target, lo, s.line)
         # 1. invariant holds on entry
         for (label, ir, txt) in spec.invariants:
             self.oblige('inv-init', self.spec_truth(ir), label='%s:%s' % (lname, label), line=s.line, note=txt)
         # 2. write set
         names, locs = self.written_locations(s.body)
-        if is_for:
+        if is_for and ivar is not None:
             names.add(ivar)
         wset = set()
         havoc_list = []
@@ -511,6 +516,9 @@ class StmtMixin(object):
                 if isinstance(o, Obj):
                     wset.add(('F', o.oid, node.attr))
                     havoc_list.append((o, node.attr))
+        if ivar_attr is not None:
+            wset.add(('F', ivar_attr[0].oid, ivar_attr[1]))
+            havoc_list.append(ivar_attr)
         for p in spec.modifies_extra:
             if p == 'kappa':
                 continue
@@ -578,14 +586,14 @@ class StmtMixin(object):
             self.kappa = self.fresh('kappa@%s' % ordn, INT)
         # 4. assume invariants (+ range)
         if is_for:
-            i = fr.env[ivar]
+            i = self.eval_quiet(s.target)
             self.assume(tm.le(lo, i))
             self.assume(tm.ite(tm.le(lo, hi), tm.le(i, hi), tm.eq(i, lo)))
         for (label, ir, txt) in spec.invariants:
             self.assume(self.spec_truth(ir))
         if iterate:
             if is_for:
-                self.assume(tm.lt(fr.env[ivar], hi))
+                self.assume(tm.lt(self.eval_quiet(s.target), hi))
             else:
                 c = self.truth(self.eval(s.cond))
                 if isinstance(c, bool):
@@ -607,13 +615,13 @@ class StmtMixin(object):
                 raise
             self.loop_stack.pop()
             if is_for:
-                self.assign_name(ivar, tm.add(fr.env[ivar], tm.mk_int(1)), s.line)
+                self.assign_target(s.target, tm.add(self.eval_quiet(s.target), tm.mk_int(1)), s.line)
             for (label, ir, txt) in spec.invariants:
                 self.oblige('inv-keep', self.spec_truth(ir), label='%s:%s' % (lname, label), line=s.line, note=txt)
             raise PathEnd()
         else:
             if is_for:
-                self.assume(tm.ge(fr.env[ivar], hi))
+                self.assume(tm.ge(self.eval_quiet(s.target), hi))
             else:
                 c = self.truth(self.eval(s.cond))
                 if isinstance(c, bool):
